@@ -253,6 +253,105 @@ def kwcalls(expr: ast.AST, scope: Scope) -> ast.AST:
 
 
 # ---------------------------------------------------------------------------
+# folding of conditional expressions with what a path already knows
+# ---------------------------------------------------------------------------
+
+_POS = {ast.IsNot: ast.Is, ast.NotEq: ast.Eq, ast.NotIn: ast.In}
+
+
+def _literal(t: ast.AST):
+    """-> (positive text, polarity) of a test"""
+    pol = True
+    while isinstance(t, ast.UnaryOp) and isinstance(t.op, ast.Not):
+        t, pol = t.operand, not pol
+    if isinstance(t, ast.Compare) and len(t.ops) == 1 and type(t.ops[0]) in _POS:
+        t = ast.Compare(left=t.left, ops=[_POS[type(t.ops[0])]()], comparators=t.comparators)
+        pol = not pol
+    return norm(t), pol
+
+
+def known_facts(conds) -> dict:
+    """Atomic facts implied by the conditions of a path: `A or B` false gives A false and B false, `A and B` true gives both."""
+    facts: dict = {}
+
+    def push(t, val):
+        t = canon(t)
+        if isinstance(t, ast.UnaryOp) and isinstance(t.op, ast.Not):
+            return push(t.operand, not val)
+        if isinstance(t, ast.BoolOp):
+            if isinstance(t.op, ast.Or) and val is False:
+                for x in t.values:
+                    push(x, False)
+            elif isinstance(t.op, ast.And) and val is True:
+                for x in t.values:
+                    push(x, True)
+            return
+        txt, pol = _literal(t)
+        facts[txt] = val if pol else not val
+    for t, val in conds:
+        push(t, val)
+    return facts
+
+
+def fold_known(e: ast.AST, conds, atom=None) -> ast.AST:
+    """Conditional expressions decided by the path (or by `atom`) are replaced by the chosen arm; a comparison of a conditional
+    expression is distributed over its arms, `X is X` of a plain name is True, constant operands of and / or are dropped."""
+    from .paths import eval_bool
+    facts = known_facts(conds)
+
+    def truth(t):
+        txt, pol = _literal(canon(t))
+        if txt in facts:
+            return facts[txt] if pol else not facts[txt]
+        if isinstance(t, ast.Constant) and isinstance(t.value, bool):
+            return t.value
+        if atom is not None:
+            return eval_bool(t, atom)
+        return None
+
+    class F(ast.NodeTransformer):
+        def visit_IfExp(self, node):
+            self.generic_visit(node)
+            v = truth(node.test)
+            return node if v is None else (node.body if v else node.orelse)
+
+        def visit_Compare(self, node):
+            self.generic_visit(node)
+            if len(node.ops) == 1 and isinstance(node.left, ast.IfExp):
+                ie = node.left
+                mk = lambda arm: self.visit(ast.Compare(left=arm, ops=node.ops, comparators=node.comparators))
+                yes = ast.BoolOp(op=ast.And(), values=[ie.test, mk(ie.body)])
+                no = ast.BoolOp(op=ast.And(), values=[ast.UnaryOp(op=ast.Not(), operand=ie.test), mk(ie.orelse)])
+                return self.visit(ast.BoolOp(op=ast.Or(), values=[yes, no]))
+            if len(node.ops) == 1 and isinstance(node.ops[0], (ast.Is, ast.IsNot)) and isinstance(node.left, ast.Name) \
+                    and isinstance(node.comparators[0], ast.Name) and node.left.id == node.comparators[0].id:
+                return ast.Constant(value=isinstance(node.ops[0], ast.Is))
+            return node
+
+        def visit_BoolOp(self, node):
+            self.generic_visit(node)
+            is_or = isinstance(node.op, ast.Or)
+            vals = []
+            for v in node.values:
+                if isinstance(v, ast.Constant) and isinstance(v.value, bool):
+                    if v.value == is_or:
+                        return ast.Constant(value=is_or)  # absorbing element
+                    continue  # neutral element
+                vals.append(v)
+            # `t or (not t and X)` is `t or X`
+            if is_or and len(vals) == 2 and isinstance(vals[1], ast.BoolOp) and isinstance(vals[1].op, ast.And) and len(vals[1].values) == 2:
+                a_, (n_, x_) = vals[0], vals[1].values
+                if isinstance(n_, ast.UnaryOp) and isinstance(n_.op, ast.Not) and norm(n_.operand) == norm(a_):
+                    vals = [a_, x_]
+            if not vals:
+                return ast.Constant(value=not is_or)
+            if len(vals) == 1:
+                return vals[0]
+            return ast.BoolOp(op=node.op, values=vals)
+    return ast.fix_missing_locations(F().visit(clone(e)))
+
+
+# ---------------------------------------------------------------------------
 # outcomes
 # ---------------------------------------------------------------------------
 
@@ -278,9 +377,12 @@ def outcomes(stmts, scope: Scope | None = None, env: dict | None = None, atom=No
 
     done: list[Outcome] = []
 
-    def res(e, env):
+    def res(e, env, conds=()):
         r = resolved(e, env)
-        return inline(r, scope) if scope is not None else r
+        r = inline(r, scope) if scope is not None else r
+        if any(isinstance(n_, ast.IfExp) for n_ in ast.walk(r)):
+            r = fold_known(r, conds, atom)
+        return r
 
     def walk(stmts, env, conds, events, cont, seq=()):
         if len(done) > limit:
@@ -292,7 +394,7 @@ def outcomes(stmts, scope: Scope | None = None, env: dict | None = None, atom=No
         if isinstance(s, ast.Expr) and isinstance(s.value, ast.Constant):
             return walk(rest, env, conds, events, cont, seq)
         if isinstance(s, ast.If):
-            test = res(s.test, env)
+            test = res(s.test, env, conds)
             v = eval_bool(test, atom) if atom is not None else None
             # walrus bindings inside the test
             env2 = dict(env)
@@ -304,7 +406,7 @@ def outcomes(stmts, scope: Scope | None = None, env: dict | None = None, atom=No
                      lambda e, c, ev, sq: walk(rest, e, c, ev, cont, sq), seq + (("cond", test, val),))
             return
         if isinstance(s, ast.Return):
-            val = res(s.value, env) if s.value is not None else None
+            val = res(s.value, env, conds) if s.value is not None else None
             _finish_return(val, env, conds, events, s, seq)
             return
         if isinstance(s, ast.Raise):
@@ -324,13 +426,13 @@ def outcomes(stmts, scope: Scope | None = None, env: dict | None = None, atom=No
             # item / attribute stores are events
             tg = s.targets if isinstance(s, ast.Assign) else [s.target]
             ev2 = events + ([s] if any(not isinstance(t, (ast.Name, ast.Tuple)) for t in tg) else [])
-            rv = res(s.value, env) if s.value is not None else None
+            rv = res(s.value, env, conds) if s.value is not None else None
             return walk(rest, env2, conds, ev2, cont, seq + (("assign", s, rv),))
         if isinstance(s, ast.AugAssign):
             env2 = dict(env)
             if isinstance(s.target, ast.Name):
                 env2.pop(s.target.id, None)
-            return walk(rest, env2, conds, events + [s], cont, seq + (("stmt", s, res(s.value, env)),))
+            return walk(rest, env2, conds, events + [s], cont, seq + (("stmt", s, res(s.value, env, conds)),))
         if isinstance(s, ast.For) and not s.orelse and isinstance(s.target, (ast.Name, ast.Tuple)):
             # a loop over a display of known length is its body once per element
             it = res(s.iter, env)
@@ -350,7 +452,7 @@ def outcomes(stmts, scope: Scope | None = None, env: dict | None = None, atom=No
             env2 = dict(env)
             env2.pop(s.name, None)
             return walk(rest, env2, conds, events + [s], cont, seq + (("stmt", s, None),))
-        rv = res(s.value, env) if isinstance(s, ast.Expr) else None
+        rv = res(s.value, env, conds) if isinstance(s, ast.Expr) else None
         return walk(rest, env, conds, events + [s], cont, seq + (("stmt", s, rv),))
 
     def _finish_return(val, env, conds, events, node, seq=()):
